@@ -68,6 +68,18 @@ func gen(tier string) []proto.Item {
 							s2.FiltersOff = true
 							items = append(items, proto.Item{Scn: s2, Class: fmt.Sprintf("%s/%s/%s/%s/from-%s/alone/filters-off", v, rtag, pos.name, form, resp.name)})
 						}
+						if resp.name == "target" && !simnet.IsICMPError(form) && (vi.Kind == "tcp" || vi.Kind == "tcpparis" || vi.Kind == "sack") {
+							// "from the target PORT": the same segment from another port of the target host, or addressed to
+							// another local port (a sibling connection), proves nothing; the matcher alone must see that
+							for _, f := range []string{"tcp.sport", "tcp.dport"} {
+								for _, op := range []string{"+1", "+256"} {
+									s3 := base(v, r.first, r.last, dest)
+									s3.FiltersOff = true
+									s3.Hops = map[int]proto.HopSpec{pos.ttl: {Form: form, From: resp.addr, AtTarget: true, Perturb: &simnet.Perturb{Field: f, Op: op}, Tag: "wrong-port"}}
+									items = append(items, proto.Item{Scn: s3, Class: fmt.Sprintf("%s/%s/%s/%s/from-target-address-wrong-%s/alone/filters-off", v, rtag, pos.name, form, f)})
+								}
+							}
+						}
 						// together with the position's ordinary reply, before and after it
 						for _, order := range []string{"first", "second"} {
 							s := base(v, r.first, r.last, dest)
